@@ -251,7 +251,9 @@ class Kernel:
             if timeout <= 0:
                 # a wait that cannot block still costs a system call: without
                 # this a loop of zero-length waits would freeze virtual time
-                timeout = 5e-10
+                # (with the realistic epoch the library's clock has a
+                # 0.24 us quantum: the call must at least cross one)
+                timeout = 5e-10 if self.epoch == EPOCH_EXACT else 1e-6
                 self.probes['zero-timeout-wait'] += 1
             me.wake_at = self.now + timeout + self._latency()
 
